@@ -235,4 +235,27 @@ def build(E):
         "R3: recursion - the function's own contract is assumed at the recursive call; the measure max(0, max_redirects+2-len(chain)) strictly decreases (obligation)",
         "servers' responses enter only through _get_single's contract (any status 10..69, any meta)",
     ]
+    # the bound the recursion uses is the one the caller configured: GeminiClient.__init__ (real body) stores max_redirects as given -
+    # including 0 ("never follow") - and the CLI passes --max-redirects straight through
+    from contracts import client_session
+    from pyvc.values import VReal, VLazyOpt, VOpaque
+    client_session.ctor_env(E)
+
+    def init_args(ctx):
+        cl = ctx.alloc(CL, {"__constructed__": True})
+        return [cl, VReal(z3.Real("timeout_arg")), VInt(z3.Int("max_redirects_arg")),
+                VLazyOpt(z3.Bool("ssl_context_given"), lambda c: VOpaque("sslctx", z3.Int("sslctx_id")), "ssl_context"),
+                VBool(z3.Bool("verify_ssl")), VBool(z3.Bool("trust_on_first_use")), NONE, NONE, NONE], {}
+
+    def init_post(ctx, old, a, outcome):
+        if outcome[0] != "return":
+            return None
+        mr = ctx.force(ctx.getf(a[0], "max_redirects"))
+        return mr.z == z3.Int("max_redirects_arg") if isinstance(mr, VInt) else z3.BoolVal(False)
+    c_init = Contract(f"{CL}.__init__", make_args=init_args,
+                      ensures=[("[C16] the client's redirect bound is exactly the max_redirects it was constructed with (0 included)", init_post)])
+    if not hasattr(spec, "event_contracts"):
+        spec.event_contracts = {}
+    spec.event_contracts[f"{CL}.__init__"] = c_init
+    spec.targets = list(spec.targets) + [(f"{CL}.__init__", None)]
     return spec
